@@ -631,7 +631,14 @@ func runCheck(repo, verif, prop string, thorough, verbose, writeEvidence, update
 	}
 	cov["vacuous_obligations_on_pinned_tree_not_claimed_as_meaningful"] = vacNow
 	cov["vacuous_obligations_new"] = vacNew
-	ev := Evidence{PropertyID: prop, Tier: tier, Seed: seed, Level: "proof", Coverage: cov, Assumptions: propAssumptions(verif, prop), WallS: round3(wall), Violations: violations}
+	byKind := map[string]int{}
+	for _, o := range claimed {
+		if o.Result == "unsat" {
+			byKind[o.Kind]++
+		}
+	}
+	cov["discharged_by_kind"] = byKind
+	ev := Evidence{PropertyID: prop, Tier: tier, Seed: seed, Level: "proof", Coverage: cov, Assumptions: append(propAssumptions(verif, prop), trusted...), WallS: round3(wall), Violations: violations}
 	if writeEvidence {
 		os.MkdirAll(filepath.Join(verif, "evidence"), 0o755)
 		data, _ := json.MarshalIndent(ev, "", " ")
